@@ -9,6 +9,7 @@ Sections: (1) objects: structural equality, `==` versus truthiness / length / cl
 usable form; (5) boolability; (6) one lemma per constraint kind ("the member that contains the object
 is kept"); (7) the no-widening lemmas; (8) constraint algebra.
 -/
+set_option linter.unusedSimpArgs false
 namespace Pya.C02
 
 /-! ### 1. objects -/
@@ -638,5 +639,714 @@ theorem kept_equals_neg {tbl : ClassTable} {T : BoolTable} (L : NLaws tbl T) {l 
       · simp [hc, hm]
     | _ => simp [hm]
   | _ => cases l <;> simp [hm]
+
+theorem objDeqL_refl_of (xs : List Obj) (h : ∀ x ∈ xs, objDeq x x = true) : objDeqL xs xs = true := by
+  induction xs with
+  | nil => simp [objDeqL]
+  | cons x xs ih =>
+    simp only [objDeqL, Bool.and_eq_true]
+    exact ⟨h x (by simp), ih fun y hy => h y (by simp [hy])⟩
+
+theorem objDeq_refl (a : Obj) : objDeq a a = true := by
+  induction a using Obj.ind' <;> simp_all [objDeq, objDeqL_refl_of]
+
+theorem elems_eq (cont : Obj) : (containerElems cont).getD [] = elemsOf cont := rfl
+
+theorem kept_in_pos {tbl : ClassTable} {T : BoolTable} {cont o : Obj} {tst m : Ty}
+    (he : o ∈ elemsOf cont)
+    (hd : dK tbl T (.predicate (.inP cont) true) tst o m = []) (hm : mem tbl o m = true) :
+    Kept tbl T (.predicate (.inP cont) true) o m := by
+  have hm' := hm
+  rw [← mem_unann] at hm'
+  unfold Kept
+  simp only [dK, applyK, applyPred, elems_eq] at hd ⊢
+  generalize unann m = u at hd hm' ⊢
+  cases u with
+  | known k =>
+    simp only [mem] at hm'
+    by_cases h1 : inDefined cont k = true
+    · have : (elemsOf cont).any (fun e => Obj.pyEq k e) = true := by
+        rw [List.any_eq_true]
+        exact ⟨o, he, by rw [Obj.pyEq_comm]; exact same_pyEq hm'⟩
+      simp [h1, this, hm]
+    · simp [h1, hm]
+  | _ =>
+    simp only [ite_list_nil, List.any_eq_true, Bool.and_eq_true, Bool.not_eq_true', not_exists, not_and,
+      Bool.not_eq_false] at hd
+    have hca := hd o he (objDeq_refl o)
+    have hin : o ∈ (elemsOf cont).filter (fun e => ca tbl false m (.known e)) := by
+      simp [List.mem_filter, he, hca]
+    cases hf : (elemsOf cont).filter (fun e => ca tbl false m (.known e)) with
+    | nil => rw [hf] at hin; simp at hin
+    | cons a as =>
+      simp only [if_true, Option.toList_some, List.mem_singleton, exists_eq_left]
+      rw [← hf, mem_unite_iff]
+      exact ⟨.known o, List.mem_map.mpr ⟨o, hin, rfl⟩, mem_known_self tbl o⟩
+
+theorem patternEnum_some {tbl : ClassTable} {elems : List Obj} {e : Cls}
+    (h : patternEnum tbl elems = some e) : tbl.isEnum e = true ∧ ∃ i rest, elems = .inst e i :: rest := by
+  unfold patternEnum at h
+  split at h
+  · rename_i c i rest
+    split at h
+    · rename_i hc
+      simp only [Option.some.injEq] at h
+      subst h
+      simp only [Bool.and_eq_true] at hc
+      exact ⟨hc.1, i, rest, rfl⟩
+    · cases h
+  · cases h
+
+theorem kept_in_neg {tbl : ClassTable} {T : BoolTable} (L : NLaws tbl T) {cont o : Obj} {m : Ty}
+    (hw : ∀ x ∈ elemsOf cont, x.wf tbl = true) (ho : objOk tbl T o = true)
+    (hh : (elemsOf cont).any (fun e => Obj.pyEq o e) = false) (hm : mem tbl o m = true) :
+    Kept tbl T (.predicate (.inP cont) false) o m := by
+  have hm' := hm
+  rw [← mem_unann] at hm'
+  unfold Kept
+  simp only [applyK, applyPred, elems_eq]
+  generalize unann m = u at hm' ⊢
+  cases u with
+  | known k =>
+    simp only [mem] at hm'
+    by_cases h1 : inDefined cont k = true
+    · have : (elemsOf cont).any (fun e => Obj.pyEq k e) = false := by
+        rw [Bool.eq_false_iff, ne_eq, List.any_eq_true]
+        rintro ⟨e, he, hke⟩
+        rw [Bool.eq_false_iff, ne_eq, List.any_eq_true] at hh
+        exact hh ⟨e, he, Obj.pyEq_trans _ _ _ (same_pyEq hm') hke⟩
+      simp [h1, this, hm]
+    · simp [h1, hm]
+  | typed c =>
+    simp only [Bool.false_eq_true, if_false]
+    cases hp : patternEnum tbl (elemsOf cont) with
+    | none => simp [hm]
+    | some e =>
+      obtain ⟨he, i, rest, hel⟩ := patternEnum_some hp
+      by_cases hc : c = e
+      · subst hc
+        have hu : tbl.isUser c = true := by
+          have := hw (.inst c i) (by rw [hel]; simp)
+          simp only [Obj.wf, Bool.and_eq_true] at this
+          exact this.2
+        obtain ⟨j, rfl⟩ := enum_of_mem L he hu hm'
+        simp only [objOk, Bool.and_eq_true, he, Bool.not_true, Bool.false_or, decide_eq_true_eq] at ho
+        simp only [beq_self_eq_true, if_true, Option.toList_some, List.mem_singleton, exists_eq_left]
+        exact mem_enumRest tbl T c j _ ho.2 hh
+      · simp [hc, hm]
+  | _ =>
+    simp only [Bool.false_eq_true, if_false]
+    cases patternEnum tbl (elemsOf cont) <;> simp [hm]
+
+/-- a length pyanalyze knows is the length of every member object -/
+theorem lenOfValue_sound {tbl : ClassTable} {T : BoolTable} {m : Ty} {o : Obj} {k : Nat}
+    (h : lenOfValue T m = some k) (hm : mem tbl o m = true) : objLen o = some k := by
+  cases m with
+  | seq c ms =>
+    simp only [lenOfValue] at h
+    split at h
+    · rename_i hc
+      simp only [Bool.and_eq_true, Bool.not_eq_true'] at hc
+      simp only [Option.some.injEq] at h
+      obtain ⟨xs, hx, hmatch⟩ := mem_seq_elems tbl hm
+      have := matchSeq_length tbl ms xs hc.2 hmatch
+      rcases hx with hx | hx <;> simp [hx, objLen, this, h]
+    · cases h
+  | known k' =>
+    simp only [mem] at hm
+    rw [same_objLen hm]
+    cases k' <;> simp_all [lenOfValue]
+  | _ => simp [lenOfValue] at h
+
+theorem kept_len {tbl : ClassTable} {T : BoolTable} {op : CmpOp} {n : Int} {pos : Bool} {o : Obj}
+    {m : Ty} {k : Nat} (hlen : objLen o = some k) (hh : op.eval (Int.ofNat k) n = pos)
+    (hm : mem tbl o m = true) : Kept tbl T (.predicate (.len op n) pos) o m := by
+  unfold Kept
+  simp only [applyK, applyPred]
+  cases hl : lenOfValue T m with
+  | some k' =>
+    have := lenOfValue_sound hl hm
+    rw [hlen, Option.some.injEq] at this
+    subst this
+    simp only [Int.ofNat_eq_natCast] at hh
+    cases pos
+    · simp only [Bool.false_eq_true, if_false, CmpOp.neg_eval, Int.ofNat_eq_natCast, hh, Bool.not_false,
+        if_true, Option.toList_some, List.mem_singleton, exists_eq_left, hm]
+    · simp only [if_true, Int.ofNat_eq_natCast, hh, Option.toList_some, List.mem_singleton,
+        exists_eq_left, hm]
+  | none =>
+    simp only
+    split <;> simp [hm, mem_annotate]
+
+/-! ### the main case analysis: one member, one condition, one polarity -/
+
+theorem ite_list_nil2 {α} {c d : Prop} [Decidable c] [Decidable d] {x y : α} :
+    (if c then (if d then [x] else [y]) else ([] : List α)) = [] ↔ ¬c := by
+  by_cases h : c <;> by_cases h' : d <;> simp [h, h']
+
+theorem elems_wf {tbl : ClassTable} {cont : Obj} (h : cont.wf tbl = true) :
+    ∀ x ∈ elemsOf cont, x.wf tbl = true := by
+  intro x hx
+  cases cont <;> simp only [elemsOf, containerElems, Option.getD_some, Option.getD_none,
+    List.not_mem_nil] at hx
+  all_goals
+    simp only [Obj.wf, Obj.wfL_iff] at h
+    exact h x hx
+
+theorem mem_isinst_pat {tbl : ClassTable} {cs : List Cls} {o : Obj}
+    (h : (cs.any fun c => tbl.issub (clsOf tbl o) c) = true) :
+    mem tbl o (unite (cs.map .typed)) = true := by
+  rw [List.any_eq_true] at h
+  obtain ⟨c, hc, hs⟩ := h
+  rw [mem_unite_iff]
+  exact ⟨.typed c, List.mem_map.mpr ⟨c, hc, rfl⟩, by simp [mem, issub_sub hs]⟩
+
+theorem mem_issub_pat {tbl : ClassTable} {cs : List Cls} {d : Cls}
+    (h : (cs.any fun c => tbl.issub d c) = true) :
+    mem tbl (.cls d) (unite (cs.map .subclass)) = true := by
+  rw [List.any_eq_true] at h
+  obtain ⟨c, hc, hs⟩ := h
+  rw [mem_unite_iff]
+  exact ⟨.subclass c, List.mem_map.mpr ⟨c, hc, rfl⟩, by simp [mem, issub_sub hs]⟩
+
+/-- equality with a tested literal determines the object (side condition `condOk`) -/
+theorem eq_of_pyEq {o l : Obj} (hs : (!(Obj.pyEq o l) || objDeq o l) = true)
+    (h : Obj.pyEq o l = true) : o = l := by
+  rw [h] at hs
+  exact objDeq_eq _ _ (by simpa using hs)
+
+theorem member_keeps {tbl : ClassTable} {T : BoolTable} (L : NLaws tbl T) {c : Cond} {pol : Bool}
+    {o : Obj} {m : Ty} (hok : memberOk m = true) (hc : condOk tbl c o = true)
+    (hw : condWf tbl c = true) (ho : objOk tbl T o = true) (hh : holds tbl c o = pol)
+    (hd : dK tbl T (c.kAt pol) (tested c) o m = []) (hm : mem tbl o m = true) :
+    Kept tbl T (c.kAt pol) o m := by
+  cases c with
+  | isinst cs =>
+    cases pol <;> simp only [Cond.kAt, Cond.k, K.invert, Bool.not_true, Bool.false_eq_true, if_false,
+      if_true, dK, holds] at hd hh ⊢
+    · rw [ite_list_nil2] at hd
+      exact kept_isAssignable_neg (by simpa using hd) hm
+    · rw [ite_list_nil] at hd
+      exact kept_isAssignable_pos (by simpa using hd) (mem_isinst_pat hh) hm
+  | issub cs =>
+    simp only [condOk, Cond.literals, List.all_nil, Bool.and_true] at hc
+    cases o <;> simp only [Bool.false_eq_true] at hc
+    cases pol <;> simp only [Cond.kAt, Cond.k, K.invert, Bool.not_true, Bool.false_eq_true, if_false,
+      if_true, dK, holds] at hd hh ⊢
+    · rw [ite_list_nil2] at hd
+      exact kept_isAssignable_neg (by simpa using hd) hm
+    · rw [ite_list_nil] at hd
+      exact kept_isAssignable_pos (by simpa using hd) (mem_issub_pat hh) hm
+  | typeIs t =>
+    cases pol <;> simp only [Cond.kAt, Cond.k, K.invert, Bool.not_true, Bool.false_eq_true, if_false,
+      if_true, dK, holds] at hd hh ⊢
+    · rw [ite_list_nil2] at hd
+      exact kept_isAssignable_neg (by simpa using hd) hm
+    · rw [ite_list_nil] at hd
+      exact kept_isAssignable_pos (by simpa using hd) hh hm
+  | matchClass k =>
+    cases pol <;> simp only [Cond.kAt, Cond.k, K.invert, Bool.not_true, Bool.false_eq_true, if_false,
+      if_true, dK, holds] at hd hh ⊢
+    · exact kept_isAssignable_neg (by simp) hm
+    · rw [ite_list_nil] at hd
+      exact kept_isAssignable_pos (by simpa using hd) (by simp [mem, issub_sub hh]) hm
+  | typeGuard t =>
+    cases pol <;> simp only [Cond.kAt, Cond.k, K.invert, Bool.not_true, Bool.false_eq_true, if_false,
+      if_true, holds] at hh ⊢
+    · exact kept_isValueObject (by simp) hm
+    · exact kept_isValueObject (fun _ => hh) hm
+  | truthy =>
+    cases pol <;> simp only [Cond.kAt, Cond.k, K.invert, Bool.not_true, Bool.false_eq_true, if_false,
+      if_true, dK, holds] at hd hh ⊢
+    · rw [ite_list_nil] at hd
+      exact kept_isTruthy_neg (by simpa using hd) hh hm
+    · exact kept_isTruthy_pos L hok hh hm
+  | len op n =>
+    simp only [condOk, Cond.literals, List.all_nil, Bool.and_true, Option.isSome_iff_exists] at hc
+    obtain ⟨k, hk⟩ := hc
+    simp only [holds, hk] at hh
+    cases pol <;> simp only [Cond.kAt, Cond.k, K.invert, Bool.not_true, Bool.false_eq_true, if_false,
+      if_true] <;> exact kept_len hk hh hm
+  | assertInst k =>
+    cases pol <;> simp only [Cond.kAt, Cond.k, K.invert, Bool.not_true, Bool.false_eq_true, if_false,
+      if_true, holds] at hd hh ⊢
+    · exact kept_isInstance_neg hok hh hd hm
+    · exact kept_isInstance_pos hok hh hd hm
+  | assertIs l =>
+    simp only [condOk, Cond.literals, List.all_nil, Bool.and_true] at hc
+    cases pol <;> simp only [Cond.kAt, Cond.k, K.invert, Bool.not_true, Bool.false_eq_true, if_false,
+      if_true, holds] at hd hh ⊢
+    · exact kept_isValue_neg hh hm
+    · obtain rfl := singleton_eq tbl hc hh
+      exact kept_isValue_pos hok hd hm
+  | is l =>
+    simp only [condOk, Cond.literals, List.all_nil, Bool.and_true] at hc
+    simp only [condWf] at hw
+    cases pol <;> simp only [Cond.kAt, Cond.k, K.invert, Bool.not_true, Bool.false_eq_true, if_false,
+      if_true, holds] at hd hh ⊢
+    · exact kept_equals_neg L hw ho (by simpa using hh) hm
+    · obtain rfl := singleton_eq tbl hc hh
+      exact kept_equals_pos hd hm
+  | isNot l =>
+    simp only [condOk, Cond.literals, List.all_nil, Bool.and_true] at hc
+    simp only [condWf] at hw
+    cases pol <;> simp only [Cond.kAt, Cond.k, K.invert, Bool.not_true, Bool.not_false, Bool.false_eq_true,
+      if_false, if_true, holds, Bool.not_eq_true', Bool.not_eq_false'] at hd hh ⊢
+    · obtain rfl := singleton_eq tbl hc hh
+      exact kept_equals_pos hd hm
+    · exact kept_equals_neg L hw ho (by simpa using hh) hm
+  | eq l =>
+    simp only [condOk, Cond.literals, List.all_cons, List.all_nil, Bool.and_true, Bool.true_and] at hc
+    simp only [condWf] at hw
+    cases pol <;> simp only [Cond.kAt, Cond.k, K.invert, Bool.not_true, Bool.false_eq_true, if_false,
+      if_true, holds] at hd hh ⊢
+    · exact kept_equals_neg L hw ho (by simpa using hh) hm
+    · obtain rfl := eq_of_pyEq hc hh
+      exact kept_equals_pos hd hm
+  | ne l =>
+    simp only [condOk, Cond.literals, List.all_cons, List.all_nil, Bool.and_true, Bool.true_and] at hc
+    simp only [condWf] at hw
+    cases pol <;> simp only [Cond.kAt, Cond.k, K.invert, Bool.not_true, Bool.not_false, Bool.false_eq_true,
+      if_false, if_true, holds, Bool.not_eq_true', Bool.not_eq_false'] at hd hh ⊢
+    · obtain rfl := eq_of_pyEq hc hh
+      exact kept_equals_pos hd hm
+    · exact kept_equals_neg L hw ho (by simpa using hh) hm
+  | inC cont =>
+    simp only [condOk, Cond.literals, Bool.and_eq_true, List.all_eq_true] at hc
+    simp only [condWf] at hw
+    cases pol <;> simp only [Cond.kAt, Cond.k, K.invert, Bool.not_true, Bool.false_eq_true, if_false,
+      if_true, holds] at hd hh ⊢
+    · exact kept_in_neg L (elems_wf hw) ho hh hm
+    · rw [List.any_eq_true] at hh
+      obtain ⟨e, he, hoe⟩ := hh
+      obtain rfl := eq_of_pyEq (hc.2 e he) hoe
+      exact kept_in_pos he hd hm
+  | notIn cont =>
+    simp only [condOk, Cond.literals, Bool.and_eq_true, List.all_eq_true] at hc
+    simp only [condWf] at hw
+    cases pol <;> simp only [Cond.kAt, Cond.k, K.invert, Bool.not_true, Bool.not_false, Bool.false_eq_true,
+      if_false, if_true, holds, Bool.not_eq_true', Bool.not_eq_false'] at hd hh ⊢
+    · rw [List.any_eq_true] at hh
+      obtain ⟨e, he, hoe⟩ := hh
+      obtain rfl := eq_of_pyEq (hc.2 e he) hoe
+      exact kept_in_pos he hd hm
+    · exact kept_in_neg L (elems_wf hw) ho hh hm
+
+theorem narrow_eq (tbl : ClassTable) (T : BoolTable) (v : Ty) (c : Cond) (pol : Bool) :
+    narrow tbl T v c pol = constrainKs tbl T v [c.kAt pol] := rfl
+
+/-- the value is never lost, outside the exception classes -/
+theorem narrow_keeps_core {tbl : ClassTable} {T : BoolTable} (L : NLaws tbl T) {v : Ty} {c : Cond}
+    {pol : Bool} {o : Obj} (hv : valueOk v = true) (hc : condOk tbl c o = true)
+    (hw : condWf tbl c = true) (ho : objOk tbl T o = true)
+    (hd : d02 tbl T v c pol o = []) (hm : mem tbl o v = true) (hh : holds tbl c o = pol) :
+    mem tbl o (narrow tbl T v c pol) = true := by
+  rw [narrow_eq, mem_constrainKs_iff, applySeq_single]
+  obtain ⟨m, hmem, hom⟩ := (mem_iff_member tbl o v).mp hm
+  have hok : memberOk m = true := by
+    simp only [valueOk, List.all_eq_true] at hv; exact hv m hmem
+  have hdm : dK tbl T (c.kAt pol) (tested c) o m = [] := by
+    simp only [d02, List.flatMap_eq_nil_iff, List.mem_filter, and_imp] at hd
+    exact hd m hmem hom
+  obtain ⟨r, hr, hor⟩ := member_keeps L hok hc hw ho hh hdm hom
+  exact ⟨r, List.mem_flatMap.mpr ⟨m, hmem, hr⟩, hor⟩
+
+/-! ### 7. no widening -/
+
+theorem shape_isAssignable {tbl : ClassTable} {T : BoolTable} {pat m r : Ty} {po pos : Bool}
+    (h : applyPred tbl T (.isAssignable pat po) m pos = some r) : r = m ∨ r = pat := by
+  unfold applyPred at h
+  grind
+theorem shape_len {tbl : ClassTable} {T : BoolTable} {m r : Ty} {op : CmpOp} {n : Int} {pos : Bool}
+    (h : applyPred tbl T (.len op n) m pos = some r) : r = m ∨ r = annotate m := by
+  unfold applyPred at h
+  grind
+theorem shape_equals {tbl : ClassTable} {T : BoolTable} {l : Obj} {useIs pos : Bool} {m r : Ty}
+    (h : applyPred tbl T (.equals l useIs) m pos = some r) :
+    r = m ∨ r = .known l ∨ (∃ b, l = .bool b ∧ unann m = .typed C.bool ∧ r = .known (.bool !b)) ∨
+      (∃ e i, l = .inst e i ∧ tbl.isEnum e = true ∧ unann m = .typed e ∧ r = enumRest T e (fun j => j == i)) := by
+  unfold applyPred at h
+  grind
+theorem shape_in {tbl : ClassTable} {T : BoolTable} {cont : Obj} {pos : Bool} {m r : Ty}
+    (h : applyPred tbl T (.inP cont) m pos = some r) :
+    r = m ∨ (r = unite (((elemsOf cont).filter (fun e => ca tbl false m (.known e))).map .known)) ∨
+      (∃ e, patternEnum tbl (elemsOf cont) = some e ∧ unann m = .typed e ∧
+        r = enumRest T e (fun j => (elemsOf cont).any fun x => Obj.pyEq (.inst e j) x)) := by
+  unfold applyPred at h
+  simp only [elems_eq] at h
+  grind
+theorem shape_isInstance {tbl : ClassTable} {T : BoolTable} {c : Cls} {pos : Bool} {m r : Ty}
+    (h : r ∈ applyK tbl T (.isInstance c pos) m) :
+    r = m ∨ r = .typed c ∨ (r = .any ∧ unann m = .any) := by
+  simp only [applyK] at h
+  grind [typOf?]
+theorem shape_isValue {tbl : ClassTable} {T : BoolTable} {l : Obj} {pos : Bool} {m r : Ty}
+    (h : r ∈ applyK tbl T (.isValue l pos) m) : r = m ∨ r = .known l := by
+  simp only [applyK] at h
+  grind [typOf?]
+
+theorem mem_enumRest_sub {tbl : ClassTable} {T : BoolTable} (L : NLaws tbl T) {e : Cls} {o : Obj}
+    {drop : Nat → Bool} (he : tbl.isEnum e = true) (hu : tbl.isUser e = true)
+    (h : mem tbl o (enumRest T e drop) = true) : mem tbl o (.typed e) = true := by
+  unfold enumRest at h
+  rw [mem_unite_iff] at h
+  obtain ⟨v, hv, hov⟩ := h
+  simp only [List.mem_map] at hv
+  obtain ⟨j, _, rfl⟩ := hv
+  simp only [mem] at hov ⊢
+  rw [same_clsOf tbl hov]
+  simp only [clsOf]
+  exact issub_sub (L.enum e he hu).2.1
+
+theorem pred_mem {tbl : ClassTable} {T : BoolTable} {p : Pred} {pos : Bool} {m r : Ty}
+    (h : r ∈ applyK tbl T (.predicate p pos) m) : applyPred tbl T p m pos = some r := by
+  simpa [applyK] using h
+
+/-- what a single constraint application can produce from a member -/
+theorem nowiden_member {tbl : ClassTable} {T : BoolTable} (L : NLaws tbl T) {c : Cond} {pol : Bool}
+    {o : Obj} {m r : Ty} (hw : condWf tbl c = true)
+    (hr : r ∈ applyK tbl T (c.kAt pol) m) (hor : mem tbl o r = true) :
+    mem tbl o m = true ∨ mem tbl o (tested c) = true := by
+  have hpred : ∀ pat po pos, r ∈ applyK tbl T (.predicate (.isAssignable pat po) pos) m →
+      mem tbl o m = true ∨ mem tbl o pat = true := by
+    intro pat po pos hr
+    rcases shape_isAssignable (pred_mem hr) with h | h <;> subst h
+    · exact Or.inl hor
+    · exact Or.inr hor
+  have hequals : ∀ l useIs pos, l.wf tbl = true → r ∈ applyK tbl T (.predicate (.equals l useIs) pos) m →
+      mem tbl o m = true ∨ mem tbl o (.known l) = true := by
+    intro l useIs pos hl hr
+    rcases shape_equals (pred_mem hr) with h | h | ⟨b, rfl, hu, rfl⟩ | ⟨e, i, rfl, he, hu, rfl⟩
+    · subst h; exact Or.inl hor
+    · subst h; exact Or.inr hor
+    · left
+      rw [← mem_unann, hu]
+      simp only [mem] at hor ⊢
+      rw [same_clsOf tbl hor]; exact issub_sub L.boolRefl
+    · left
+      rw [← mem_unann, hu]
+      simp only [Obj.wf, Bool.and_eq_true] at hl
+      exact mem_enumRest_sub L he hl.2 hor
+  have hin : ∀ cont pos, cont.wf tbl = true → r ∈ applyK tbl T (.predicate (.inP cont) pos) m →
+      mem tbl o m = true ∨ mem tbl o (.union ((elemsOf cont).map .known)) = true := by
+    intro cont pos hcw hr
+    rcases shape_in (pred_mem hr) with h | h | ⟨e, hp, hu, rfl⟩
+    · subst h; exact Or.inl hor
+    · subst h
+      right
+      rw [mem_unite_iff] at hor
+      obtain ⟨v, hv, hov⟩ := hor
+      simp only [List.mem_map, List.mem_filter] at hv
+      obtain ⟨x, ⟨hx, _⟩, rfl⟩ := hv
+      simp only [mem, memAny_iff]
+      exact ⟨.known x, List.mem_map.mpr ⟨x, hx, rfl⟩, hov⟩
+    · left
+      rw [← mem_unann, hu]
+      obtain ⟨he, i, rest, hel⟩ := patternEnum_some hp
+      have hu' : tbl.isUser e = true := by
+        have := elems_wf hcw (.inst e i) (by rw [hel]; simp)
+        simp only [Obj.wf, Bool.and_eq_true] at this
+        exact this.2
+      exact mem_enumRest_sub L he hu' hor
+  have hlen : ∀ op n pos, r ∈ applyK tbl T (.predicate (.len op n) pos) m → mem tbl o m = true := by
+    intro op n pos hr
+    rcases shape_len (pred_mem hr) with h | h <;> subst h
+    · exact hor
+    · rw [mem_annotate] at hor; exact hor
+  have hinst : ∀ k pos, r ∈ applyK tbl T (.isInstance k pos) m →
+      mem tbl o m = true ∨ mem tbl o (.typed k) = true := by
+    intro k pos hr
+    rcases shape_isInstance hr with h | h | ⟨_, hu⟩
+    · subst h; exact Or.inl hor
+    · subst h; exact Or.inr hor
+    · left; rw [← mem_unann, hu]; simp [mem]
+  have hval : ∀ l pos, r ∈ applyK tbl T (.isValue l pos) m →
+      mem tbl o m = true ∨ mem tbl o (.known l) = true := by
+    intro l pos hr
+    rcases shape_isValue hr with h | h <;> subst h
+    · exact Or.inl hor
+    · exact Or.inr hor
+  have hvo : ∀ t pos, r ∈ applyK tbl T (.isValueObject t pos) m →
+      mem tbl o m = true ∨ mem tbl o t = true := by
+    intro t pos hr
+    cases pos <;> simp only [applyK, Bool.false_eq_true, if_false, if_true, List.mem_singleton] at hr <;>
+      subst hr
+    · exact Or.inl hor
+    · exact Or.inr hor
+  have htr : ∀ pos, r ∈ applyK tbl T (.isTruthy pos) m → mem tbl o m = true := by
+    intro pos hr
+    simp only [applyK] at hr
+    have : r = m := by grind
+    subst this; exact hor
+  cases c <;> cases pol <;>
+    simp only [Cond.kAt, Cond.k, K.invert, Bool.not_true, Bool.not_false, Bool.false_eq_true, if_false,
+      if_true, tested, condWf] at hr hw ⊢
+  all_goals first
+    | exact hpred _ _ _ hr
+    | exact hequals _ _ _ hw hr
+    | exact hin _ _ hw hr
+    | exact Or.inl (hlen _ _ _ hr)
+    | exact hinst _ _ hr
+    | exact hval _ _ hr
+    | exact hvo _ _ hr
+    | exact Or.inl (htr _ hr)
+
+theorem narrow_no_widen_core {tbl : ClassTable} {T : BoolTable} (L : NLaws tbl T) {v : Ty} {c : Cond}
+    {pol : Bool} {o : Obj} (hw : condWf tbl c = true)
+    (h : mem tbl o (narrow tbl T v c pol) = true) :
+    mem tbl o v = true ∨ mem tbl o (tested c) = true := by
+  rw [narrow_eq, mem_constrainKs_iff, applySeq_single] at h
+  obtain ⟨r, hr, hor⟩ := h
+  obtain ⟨m, hmem, hrm⟩ := List.mem_flatMap.mp hr
+  rcases nowiden_member L hw hrm hor with h | h
+  · exact Or.inl ((mem_iff_member tbl o v).mpr ⟨m, hmem, h⟩)
+  · exact Or.inr h
+
+/-! ### 8. verdicts on whole values -/
+
+theorem minRank_mem : ∀ (bs : List Boolab), bs ≠ [] → minRank bs ∈ bs
+  | [], h => absurd rfl h
+  | [b], _ => by simp [minRank]
+  | b :: c :: bs, _ => by
+    have ih := minRank_mem (c :: bs) (by simp)
+    simp only [minRank]
+    split
+    · simp
+    · exact List.mem_cons_of_mem _ ih
+
+def unionRule (bs : List Boolab) : Boolab :=
+  if bs.contains .erroring then .erroring
+  else if bs.contains .boolable then .boolable
+  else if bs.any Boolab.safelyTrue && bs.any (fun b => b == .vaFalse || b == .vaFalseMut) then .boolable
+  else minRank bs
+
+theorem unionRule_true {bs : List Boolab} (h : (unionRule bs).safelyTrue = true) :
+    ∀ b ∈ bs, b.safelyTrue = true := by
+  unfold unionRule at h
+  split at h
+  · cases h
+  · rename_i he
+    split at h
+    · cases h
+    · rename_i hb
+      split at h
+      · cases h
+      · rename_i hx
+        have hne : bs ≠ [] := by
+          intro h0; subst h0; simp [minRank, Boolab.safelyTrue] at h
+        have hin := minRank_mem bs hne
+        have hany : bs.any Boolab.safelyTrue = true := List.any_eq_true.mpr ⟨_, hin, h⟩
+        simp only [hany, Bool.true_and, Bool.not_eq_true, List.any_eq_false, Bool.or_eq_true,
+          beq_iff_eq, not_or] at hx
+        intro b hb'
+        have h1 := hx b hb'
+        have h2 : b ≠ .erroring := by intro h0; subst h0; exact he (by simpa using hb')
+        have h3 : b ≠ .boolable := by intro h0; subst h0; exact hb (by simpa using hb')
+        cases b <;> simp_all [Boolab.safelyTrue]
+
+theorem unionRule_false {bs : List Boolab}
+    (h : unionRule bs = .vaFalse ∨ unionRule bs = .vaFalseMut) :
+    ∀ b ∈ bs, b = .vaFalse ∨ b = .vaFalseMut := by
+  unfold unionRule at h
+  split at h
+  · rcases h with h | h <;> cases h
+  · rename_i he
+    split at h
+    · rcases h with h | h <;> cases h
+    · rename_i hb
+      split at h
+      · rcases h with h | h <;> cases h
+      · rename_i hx
+        have hne : bs ≠ [] := by
+          intro h0; subst h0; simp [minRank] at h
+        have hin := minRank_mem bs hne
+        have hany : bs.any (fun b => b == .vaFalse || b == .vaFalseMut) = true :=
+          List.any_eq_true.mpr ⟨_, hin, by rcases h with h | h <;> simp [h]⟩
+        simp only [hany, Bool.and_true, Bool.not_eq_true, List.any_eq_false] at hx
+        intro b hb'
+        have h1 := hx b hb'
+        have h2 : b ≠ .erroring := by intro h0; subst h0; exact he (by simpa using hb')
+        have h3 : b ≠ .boolable := by intro h0; subst h0; exact hb (by simpa using hb')
+        cases b <;> simp_all [Boolab.safelyTrue]
+
+theorem getBool_eq (tbl : ClassTable) (T : BoolTable) (v : Ty) :
+    getBool tbl T v = (match unannAll v with
+      | .union ts => unionRule (ts.map (boolNoMvv tbl T))
+      | _ => boolNoMvv tbl T v) := by
+  unfold getBool unionRule
+  cases unannAll v <;> rfl
+
+/-- an "always true" verdict is right for every member object, unless a member is of an
+always-true class with a falsy class below it -/
+theorem always_true_core {tbl : ClassTable} {T : BoolTable} {v : Ty} {o : Obj}
+    (hb : (getBool tbl T v).safelyTrue = true) (hl : verdictLeak tbl T v = false)
+    (hm : mem tbl o v = true) : truthy o = true := by
+  rw [getBool_eq] at hb
+  unfold verdictLeak boolMembers at hl
+  rw [← mem_unannAll] at hm
+  cases hu : unannAll v with
+  | union ts =>
+    rw [hu] at hb hl hm
+    simp only at hb hl
+    simp only [mem, memAny_iff] at hm
+    obtain ⟨t, ht, hot⟩ := hm
+    have h1 := unionRule_true hb _ (List.mem_map.mpr ⟨t, ht, rfl⟩)
+    rw [Bool.eq_false_iff, ne_eq, List.any_eq_true] at hl
+    exact boolNoMvv_true_sound h1 (by
+      cases hlk : leakM tbl T t with
+      | false => rfl
+      | true => exact absurd ⟨t, ht, hlk⟩ hl) hot
+  | _ =>
+    rw [hu] at hb hl hm
+    simp only [List.any_cons, List.any_nil, Bool.or_false] at hb hl
+    rw [← hu, mem_unannAll] at hm
+    exact boolNoMvv_true_sound hb hl hm
+
+/-- an "always false" verdict (mutable or not) is right for every member object -/
+theorem always_false_core {tbl : ClassTable} {T : BoolTable} (L : NLaws tbl T) {v : Ty} {o : Obj}
+    (hb : getBool tbl T v = .vaFalse ∨ getBool tbl T v = .vaFalseMut)
+    (hm : mem tbl o v = true) : truthy o = false := by
+  rw [getBool_eq] at hb
+  rw [← mem_unannAll] at hm
+  cases hu : unannAll v with
+  | union ts =>
+    rw [hu] at hb hm
+    simp only at hb
+    simp only [mem, memAny_iff] at hm
+    obtain ⟨t, ht, hot⟩ := hm
+    exact boolNoMvv_false_sound L (unionRule_false hb _ (List.mem_map.mpr ⟨t, ht, rfl⟩)) hot
+  | _ =>
+    rw [hu] at hb hm
+    simp only at hb
+    rw [← hu, mem_unannAll] at hm
+    exact boolNoMvv_false_sound L hb hm
+
+/-! ### 9. constraint algebra -/
+
+theorem K.invert_invert (k : K) : k.invert.invert = k := by
+  cases k <;> simp [K.invert]
+
+mutual
+theorem AC.invert_invert : ∀ a : AC, a.noProvider = true → a.invert.invert = a
+  | .null, _ => rfl
+  | .k c, _ => by simp [AC.invert, K.invert_invert]
+  | .and cs, h => by
+    simp only [AC.noProvider] at h
+    simp only [AC.invert, AC.invertL_invertL cs h]
+  | .or cs, h => by
+    simp only [AC.noProvider] at h
+    simp only [AC.invert, AC.invertL_invertL cs h]
+  | .equiv cs, h => by
+    simp only [AC.noProvider] at h
+    simp only [AC.invert, AC.invertL_invertL cs h]
+  | .provider, h => by simp [AC.noProvider] at h
+theorem AC.invertL_invertL : ∀ cs : List AC, AC.noProviderL cs = true →
+    AC.invertL (AC.invertL cs) = cs
+  | [], _ => rfl
+  | c :: cs, h => by
+    simp only [AC.noProviderL, Bool.and_eq_true] at h
+    simp only [AC.invertL, AC.invert_invert c h.1, AC.invertL_invertL cs h.2]
+end
+
+/-- the constraint keeps the object: from every value containing it, it produces a value containing it -/
+def KeepsK (tbl : ClassTable) (T : BoolTable) (k : K) (o : Obj) : Prop :=
+  ∀ m, mem tbl o m = true → ∃ r ∈ applyK tbl T k m, mem tbl o r = true
+
+theorem mem_applyOne {tbl : ClassTable} {T : BoolTable} {r m : Ty} :
+    ∀ {ks : List K}, r ∈ applyOne tbl T ks m ↔ ∃ k ∈ ks, r ∈ applyK tbl T k m
+  | [] => by simp [applyOne]
+  | k :: ks => by simp [applyOne, mem_applyOne (ks := ks)]
+
+theorem applySeq_append (tbl : ClassTable) (T : BoolTable) : ∀ (ks1 ks2 : List K) (vs : List Ty),
+    applySeq tbl T (ks1 ++ ks2) vs = applySeq tbl T ks2 (applySeq tbl T ks1 vs)
+  | [], _, _ => by simp [applySeq]
+  | k :: ks1, ks2, vs => by simp [applySeq, applySeq_append tbl T ks1 ks2]
+
+/-- **AND**: constraints applied one after the other keep an object every one of them keeps -/
+theorem applySeq_keeps {tbl : ClassTable} {T : BoolTable} {o : Obj} : ∀ {ks : List K} {vs : List Ty},
+    (∀ k ∈ ks, KeepsK tbl T k o) → (∃ v ∈ vs, mem tbl o v = true) →
+    ∃ r ∈ applySeq tbl T ks vs, mem tbl o r = true
+  | [], vs, _, hv => by simpa [applySeq] using hv
+  | k :: ks, vs, hk, hv => by
+    simp only [applySeq]
+    apply applySeq_keeps (fun k' hk' => hk k' (by simp [hk']))
+    obtain ⟨v, hv, hov⟩ := hv
+    obtain ⟨r, hr, hor⟩ := hk k (by simp) v hov
+    exact ⟨r, List.mem_flatMap.mpr ⟨v, hv, hr⟩, hor⟩
+
+theorem allOf_keeps {tbl : ClassTable} {T : BoolTable} {o : Obj} {ks : List K}
+    (h : ∀ k ∈ ks, KeepsK tbl T k o) : KeepsK tbl T (.allOf ks) o := by
+  intro m hm
+  simp only [applyK]
+  exact applySeq_keeps h ⟨m, by simp, hm⟩
+
+/-- **OR**: a `one_of` constraint keeps an object one of its alternatives keeps -/
+theorem oneOf_keeps {tbl : ClassTable} {T : BoolTable} {o : Obj} {ks : List K}
+    (h : ∃ k ∈ ks, KeepsK tbl T k o) : KeepsK tbl T (.oneOf ks) o := by
+  intro m hm
+  obtain ⟨k, hk, hkeep⟩ := h
+  obtain ⟨r, hr, hor⟩ := hkeep m hm
+  simp only [applyK]
+  exact ⟨r, mem_applyOne.mpr ⟨k, hk, hr⟩, hor⟩
+
+theorem groupK_keeps {tbl : ClassTable} {T : BoolTable} {o : Obj} {ks : List K}
+    (h : ∀ k ∈ ks, KeepsK tbl T k o) : KeepsK tbl T (groupK ks) o := by
+  unfold groupK
+  split
+  · exact h _ (by simp)
+  · exact allOf_keeps h
+
+theorem constrainKs_keeps {tbl : ClassTable} {T : BoolTable} {o : Obj} {v : Ty} {ks : List K}
+    (h : ∀ k ∈ ks, KeepsK tbl T k o) (hm : mem tbl o v = true) :
+    mem tbl o (constrainKs tbl T v ks) = true := by
+  rw [mem_constrainKs_iff]
+  exact applySeq_keeps h ((mem_iff_member tbl o v).mp hm)
+
+theorem mem_applyL {k : K} : ∀ {cs : List AC}, k ∈ AC.applyL cs ↔ ∃ c ∈ cs, k ∈ c.apply
+  | [] => by simp [AC.applyL]
+  | c :: cs => by simp [AC.applyL, mem_applyL (cs := cs)]
+
+theorem groups_eq : ∀ (cs : List AC), AC.groups cs = cs.map AC.apply
+  | [] => rfl
+  | c :: cs => by simp [AC.groups, groups_eq cs]
+
+/-- **AND of abstract constraints**: if every concrete constraint of every conjunct keeps the object,
+the conjunction keeps it -/
+theorem and_keeps {tbl : ClassTable} {T : BoolTable} {o : Obj} {v : Ty} {cs : List AC}
+    (h : ∀ c ∈ cs, ∀ k ∈ c.apply, KeepsK tbl T k o) (hm : mem tbl o v = true) :
+    mem tbl o (constrain tbl T v (.and cs)) = true := by
+  unfold constrain
+  apply constrainKs_keeps _ hm
+  intro k hk
+  simp only [AC.apply, mem_applyL] at hk
+  obtain ⟨c, hc, hkc⟩ := hk
+  exact h c hc k hkc
+
+/-- **OR of abstract constraints**: if the constraints of *one* disjunct keep the object, the
+disjunction keeps it (whatever the other disjuncts are) -/
+theorem or_keeps {tbl : ClassTable} {T : BoolTable} {o : Obj} {v : Ty} {cs : List AC}
+    (h : ∃ c ∈ cs, ∀ k ∈ c.apply, KeepsK tbl T k o) (hm : mem tbl o v = true) :
+    mem tbl o (constrain tbl T v (.or cs)) = true := by
+  unfold constrain
+  apply constrainKs_keeps _ hm
+  intro k hk
+  simp only [AC.apply, groups_eq] at hk
+  obtain ⟨c, hc, hkeep⟩ := h
+  cases hcs : cs.map AC.apply with
+  | nil => rw [hcs] at hk; simp at hk
+  | cons g gs =>
+    rw [hcs] at hk
+    simp only at hk
+    split at hk
+    · simp at hk
+    · simp only [List.mem_singleton] at hk
+      subst hk
+      apply oneOf_keeps
+      have : c.apply ∈ g :: gs := by rw [← hcs]; exact List.mem_map.mpr ⟨c, hc, rfl⟩
+      exact ⟨groupK c.apply, List.mem_map.mpr ⟨_, this, rfl⟩, groupK_keeps hkeep⟩
+
+/-- inverting a conjunction is the disjunction of the inverses (and dually), as constraints -/
+theorem invert_and (cs : List AC) : (AC.and cs).invert = .or (AC.invertL cs) := by simp [AC.invert]
+theorem invert_or (cs : List AC) : (AC.or cs).invert = .and (AC.invertL cs) := by simp [AC.invert]
 
 end Pya.C02
